@@ -81,8 +81,6 @@ def causes(v):
         for x in v.value:
             if not isinstance(x, (T.UAInteger, T.UAFloatingPoint)) or isinstance(x, (T.UAInt64, T.UAUInt64)) or isna(x.value) or (isinstance(x.value, float) and not math.isfinite(x.value)):
                 c.add("list-items-not-json")
-        tn = v.typename
-        if tn not in variant_types().__members__: c.add("list-unknown-typename")
     elif isinstance(v, T.UAVariant):
         if not isna(v.value): c |= causes(v.value)
     elif isinstance(v, T.UAExtensionObject):
